@@ -5,6 +5,7 @@ package main
 // (fake clock), against the Lean model, and against the property oracle.
 
 import (
+	"bytes"
 	"context"
 	"encoding/binary"
 	"errors"
@@ -23,6 +24,8 @@ import (
 	"github.com/database64128/shadowsocks-go/netiotest"
 	"github.com/database64128/shadowsocks-go/ss2022"
 	"go.uber.org/zap"
+	"go.uber.org/zap/zapcore"
+	"go.uber.org/zap/zaptest/observer"
 )
 
 // bubbleStart: the fake clock of every synctest bubble starts at 2000-01-01T00:00:00Z.
@@ -63,8 +66,6 @@ type Pres struct {
 	Class   string `json:"class"` // raw error class of the implementation
 }
 
-var nopLogger = zap.NewNop()
-
 func classify(err error) string {
 	var he8 *ss2022.HeaderError[byte]
 	var he64 *ss2022.HeaderError[int64]
@@ -95,7 +96,10 @@ func classify(err error) string {
 }
 
 // presentBytes hands the bytes to HandleStream over an in-memory pipe, in one write.
-func presentBytes(s *ss2022.StreamServer, b []byte) (class string, panicked any) {
+// Observed class: "accept" (a request for the client's target), an error class, or "fallback:<class of the
+// swallowed error>" when the server returned a request for its fallback address (the cause is read off the
+// server's own log entry; that it is a fallback is read off the returned request).
+func presentBytes(s *ss2022.StreamServer, b []byte, fb bool) (class string, panicked any) {
 	pl, pr := netio.NewPipe()
 	var wg sync.WaitGroup
 	wg.Add(1)
@@ -108,8 +112,14 @@ func presentBytes(s *ss2022.StreamServer, b []byte) (class string, panicked any)
 	}()
 	var err error
 	var req netio.ConnRequest
+	logger, logs := nopLogger, (*observer.ObservedLogs)(nil)
+	if fb { // only a server with a fallback logs the swallowed error
+		var core zapcore.Core
+		core, logs = observer.New(zap.WarnLevel)
+		logger = zap.New(core)
+	}
 	panicked = common.Safely(func() {
-		req, err = s.HandleStream(pr, nopLogger)
+		req, err = s.HandleStream(pr, logger)
 	})
 	pr.Close()
 	pl.Close()
@@ -119,6 +129,24 @@ func presentBytes(s *ss2022.StreamServer, b []byte) (class string, panicked any)
 	}
 	if err == nil && req.PendingConn == nil {
 		return "accept-without-conn", nil
+	}
+	if err == nil && req.Addr.Equals(fallbackAddr) {
+		cause := "?"
+		var entries []observer.LoggedEntry
+		if logs != nil {
+			entries = logs.All()
+		}
+		for _, e := range entries {
+			for _, f := range e.Context {
+				if ce, ok := f.Interface.(error); ok && f.Key == "error" {
+					cause = classify(ce)
+				}
+			}
+		}
+		if len(req.Payload) > len(b) || !bytes.Equal(req.Payload, b[:len(req.Payload)]) || len(req.Payload) == 0 {
+			return "fallback-payload-mismatch:" + cause, nil
+		}
+		return "fallback:" + cause, nil
 	}
 	return classify(err), nil
 }
@@ -154,6 +182,8 @@ func saltBytes(seed uint64, n int) []byte {
 	binary.BigEndian.PutUint64(b, seed) // distinct seeds => distinct salts
 	return b
 }
+
+var nopLogger = zap.NewNop()
 
 type runResult struct {
 	built []*Built // requests in creation order
@@ -242,7 +272,7 @@ func runHistory(t *testing.T, c Case, reuse []*Built, skip map[int]bool) (res ru
 				continue
 			}
 			now := time.Now().UnixNano()
-			class, pan := presentBytes(srv, b.Bytes)
+			class, pan := presentBytes(srv, b.Bytes, c.Cfg.Fallback)
 			if pan != nil {
 				res.pan = pan
 			}
@@ -255,7 +285,7 @@ func runHistory(t *testing.T, c Case, reuse []*Built, skip map[int]bool) (res ru
 				sid = saltID(b.Salt)
 			}
 			res.pres = append(res.pres, Pres{Op: i, Req: idx, Now: now, Class: class})
-			res.lines = append(res.lines, fmt.Sprintf("present %d %s %d 0", sid, b.Flags, b.Ts))
+			res.lines = append(res.lines, fmt.Sprintf("present %d %s %d 0 %s %s", sid, b.Flags, b.Ts, b2s(c.Cfg.Fallback), b2s(len(b.Bytes) > 0)))
 		}
 	})
 	return
@@ -263,6 +293,11 @@ func runHistory(t *testing.T, c Case, reuse []*Built, skip map[int]bool) (res ru
 
 // modelToImpl: which implementation error classes a model verdict stands for.
 func verdictMatches(model, class string, b *Built) bool {
+	mfb, cfb := strings.HasPrefix(model, "fallback:"), strings.HasPrefix(class, "fallback:")
+	if mfb != cfb {
+		return false
+	}
+	model, class = strings.TrimPrefix(model, "fallback:"), strings.TrimPrefix(class, "fallback:")
 	switch model {
 	case "short":
 		return class == "short" || class == "eof"
@@ -280,6 +315,8 @@ func presVerdict(class string) string {
 	switch class {
 	case "eof", "short":
 		return "read-error"
+	case "fallback:eof", "fallback:short":
+		return "fallback:read-error"
 	default:
 		return class
 	}
@@ -306,7 +343,7 @@ type oracleFail struct{ key, detail string }
 //	(b) no request accepted twice at an instant where its timestamp passes;
 //	(c) an authentic request whose timestamp passes, presented for the first time (no earlier presentation sharing
 //	    its authentic first chunk), is accepted.
-func oracleHistory(built []*Built, pres []Pres) []oracleFail {
+func oracleHistory(built []*Built, pres []Pres, fallback bool) []oracleFail {
 	var fails []oracleFail
 	firstAccept := map[int]int64{}
 	seenFirstChunk := map[[32]byte]bool{}
@@ -332,6 +369,12 @@ func oracleHistory(built []*Built, pres []Pres) []oracleFail {
 			}
 			fails = append(fails, oracleFail{key, fmt.Sprintf("request %d (timestamp %d) accepted at %d ns and again at %d ns (%.9f s later), where its timestamp still passes",
 				p.Req, int64(b.Ts), t1, p.Now, float64(p.Now-t1)/1e9)})
+		}
+		if strings.HasPrefix(p.Class, "fallback") && (!fallback || len(b.Bytes) == 0 || strings.HasPrefix(p.Class, "fallback-payload-mismatch")) {
+			fails = append(fails, oracleFail{"bad-fallback", fmt.Sprintf("presentation %d: %s (fallback configured: %v, %d bytes presented)", i, p.Class, fallback, len(b.Bytes))})
+		}
+		if _, ok := firstAccept[p.Req]; ok && fallback && !acc && tsPasses(b.Ts, p.Now) && !strings.HasPrefix(p.Class, "fallback:") {
+			fails = append(fails, oracleFail{"replay-not-handed-to-fallback", fmt.Sprintf("presentation %d: replay of accepted request %d on a server with a fallback ended as %q", i, p.Req, p.Class)})
 		}
 		if b.Authentic && tsPasses(b.Ts, p.Now) && !seenFirstChunk[b.Salt] && !acc {
 			key := "genuine-refused"
